@@ -1,3 +1,4 @@
 /- Aggregate: C10 acceptance (C10.lean) and classification of refused texts (C10Class.lean). -/
 import AJ.Props.C10
 import AJ.Props.C10Class
+import AJ.Props.C01Doc
